@@ -41,7 +41,7 @@ CHECKS = {
              note='Stand-alone modules are executed in-process under unique names; Lark.load takes no options so transformer/postlex variants cover cache and stand-alone only.', ref='4 C11'),
  'C12': dict(level='fault_enumeration', technique='fault injection on the real cache file (truncation offsets, bit flips, spliced/foreign payloads, writer killed in a subprocess, key histories incl. python 3.11) with behaviour-vector oracle vs uncached build and cache-served observation',
              text='Every fault state of the cache file is followed by a real construction whose behaviour vector (canonical outcomes with positions on a fixed input set, terminal table, rules) must equal the uncached build; the constructor must not raise; a parser cached for another key must not be served (observed: load_grammar called or not); the file left behind must be a valid cache. Truncation offsets are enumerated (quick: every 16th + whole prologue; thorough: every offset), other faults sampled.',
-             note='Known findings F-C12-1 (payload not integrity-checked) and F-C12-2 (edit_terminals / postlex.always_accept neither hashed nor re-applied). Damaged-payload loads run in a forked child under memory and time limits.', ref='4 C12'),
+             note='Known findings F-C12-1 (payload not integrity-checked) and F-C12-2 (edit_terminals / postlex.always_accept neither hashed nor re-applied). The grammar records three files (two modules and lark\'s own common.lark); histories edit either module, switch import_paths, and import the modules from a package through FromPackageLoader whose files change between constructions. Damaged-payload loads run in a forked child under memory and time limits.', ref='4 C12'),
  'C13': dict(level='exploration', technique='runtime monitor over fork histories of InteractiveParser handles: per-handle result vs parse() of its own text, re-canonicalisation of earlier results after every later operation, accepts() vs trial feeds and reference automaton, resume_parse vs manual feed / blanked text',
              text='Random fork trees (copy, copy.copy, as_immutable, as_mutable, immutable feed_token; forks after every prefix; diverging continuations; accepts()/choices() interleaved; random finishing order) on generated LALR grammars with inlined left-recursive lists, ?-rules, placeholders, propagate_positions and an embedded list-returning transformer. Every handle must end with exactly the parse() result of its own token sequence and no earlier result may change afterwards.',
              note='Expected values come from Lark.parse itself (judged by C02/C03). resume == parse of the blanked text only when the parser had not reduced on the bad lookahead; otherwise == manual feeding from a fork of the same state.', ref='4 C13'),
@@ -50,19 +50,19 @@ CHECKS = {
              note='A snippet counts as parseable from p only if its tokens are a prefix of the in-context token stream from p (scan lexes in context). Text length <= 40.', ref='4 C14'),
  'C15': dict(level='exploration', technique='metamorphic runtime monitor: str vs bytes vs TextSlice windows of hostile buffers, canonical outcomes compared after the coordinate shift the statement prescribes',
              text='Every generated text (accepted and rejected, with newlines in kept/ignored/filtered terminals) is parsed as str, as bytes with use_bytes=True, as a complete TextSlice and as windows of larger buffers whose neighbours would extend the first/last token or put the window mid-line; trees with all token coordinates and meta, and exception class/position, must agree after shifting by the window start.',
-             note='ASCII only. Context-sensitive regexps (\\b, look-behind, ^, $) are a separate class judged against finding F-C15-1; dynamic lexers refuse slices (documented).', ref='4 C15'),
+             note='ASCII only. Two grammar families: terminal-centred grammars (newlines in kept/ignored/filtered terminals) and grammars with tree structure (?-rules and inlined rules wrapped in filtered tokens) whose node meta must agree too. Context-sensitive regexps (\\b, look-behind, ^, $) are a separate class judged against finding F-C15-1; dynamic lexers refuse slices (documented).', ref='4 C15'),
  'C16': dict(level='exploration', technique='differential runtime monitor: embedded vs post transformation with generated pure transformers; four traversal classes compared on copies of the same tree with call-log checker (once per node, children first)',
              text='For generated LALR grammars with every shaping feature a pure transformer is generated per grammar (callbacks on random rules, aliases, template names and named terminals; plain, v_args(inline) and v_args(tree) styles); the embedded result must equal the post-transform result for every accepted input, and Transformer, Transformer_NonRecursive, Transformer_InPlace and Transformer_InPlaceRecursive must return equal results with exactly one logged call per node and no callback seeing an untransformed child.',
-             note='__default__/__default_token__ untouched, no Discard, no meta (the statement\'s exceptions). Embedded in-place transformers are a separate class (finding F-C16-1).', ref='4 C16'),
+             note='__default__/__default_token__ untouched, no meta. Discard is used in the comparison of the four traversal classes only (a third of the callbacks return it; it is documented as disabled for the embedded mode), never on the root. Embedded in-place transformers are a separate class (finding F-C16-1).', ref='4 C16'),
  'C17': dict(level='exploration', technique='differential runtime monitor: a flat grammar vs its generated split into modules with %import / %override / %extend / templates, same lark, compared on language and tree sets modulo documented prefixes',
              text='Each generated flat grammar is split into main + one or two module files (single, multi and renaming imports; relative and import_paths resolution; transitive dependencies; local definitions named like non-imported module definitions; %ignore inside modules; overrides of imported rules, of namespaced dependencies and of terminals; extends of rules and terminals; templates defined in a module). The modular grammar must construct whenever the flat one does, accept the same inputs and return the same set of trees under ambiguity=explicit (same tree under LALR) after stripping module prefixes and undoing renames.',
-             note='The flat side is interpreted by lark itself (judged by C03). Terminals that coincide with a literal are not overridden/extended (binding of literals precedes the directive and has no textual equivalent).', ref='4 C17'),
+             note='The flat side is interpreted by lark itself (judged by C03). Engines: Earley explicit, LALR, LALR with keep_all_tokens. After the comparison the module file is edited (a terminal gets another body) and the unchanged main text is loaded again in the same process: it must mean what the flat grammar with the same edit means. Terminals that coincide with a literal are not overridden/extended (binding of literals precedes the directive and has no textual equivalent). Finding F-C17-1.', ref='4 C17'),
  'C18': dict(level='exploration', technique="runtime monitor: INDENT/DEDENT event trace of the real post-lexer vs CPython's tokenize on the same text, vs a stack model on synthetic token streams; balance contract; stream-sequence (reuse) oracle",
              text="Generated python-like texts (mixed spaces/tabs, blank/comment lines, bracketed continuation lines, multi-level and non-matching dedents) are lexed with lark's python grammar + PythonIndenter and the INDENT/DEDENT/logical-line event sequence (and DedentError) must equal CPython's tokenizer's; synthetic token streams with own bracket types and tab_len 1-8 are compared with a stack model written from the statement; INDENT/DEDENT must balance at the end of every complete stream; after failed or abandoned streams the same Indenter object must behave like a fresh one.",
-             note='Leading tabs are rewritten to tab_len spaces before CPython sees the text. Two separate input classes carry finding F-C18-1.', ref='4 C18'),
+             note='Leading tabs are rewritten to tab_len spaces before CPython sees the text. Synthetic streams may be empty and contain tokens with empty or odd values. Two separate input classes carry finding F-C18-1.', ref='4 C18'),
  'C19': dict(level='exploration', technique='round-trip runtime monitor: parse -> Reconstructor.reconstruct -> parse on generated grammars whose membership in the supported class is verified by a reference LALR(1) and syntactic checks',
              text='Grammars are generated with every shaping feature, whitespace ignored and maybe_placeholders=False; each is admitted only if the reference LALR(1) of its compiled rules is conflict-free (hence unambiguous), it has no useless rules, filtered terminals are strings and every compiled alternative keeps an unfiltered symbol other than its own rule. For every sampled sentence and both parser types the reconstructed text must be accepted and parse to an equal tree, without exception.',
-             note='Known findings: F-C19-1 (templates), F-C19-2 (?-rule handling of the tree matcher; classified differentially: the same round trip succeeds without the ? modifiers), F-C19-3 (?start returning its child).', ref='4 C19'),
+             note='Known findings: F-C19-1 (templates), F-C19-2 (?-rule handling of the tree matcher; classified by a static predicate on the compiled rules - some ?-alternative is provably misjudged by the matcher - AND differentially: the same round trip succeeds without the ? modifiers), F-C19-3 (?start returning its child). Corpus grammars: calculator with calls, nested lists/blocks, aliased recursion.', ref='4 C19'),
  'C20': dict(level='exploration', technique='differential runtime monitor: forest transformers/visitors vs reference derivation enumeration; step budget + on_cycle observation on cyclic forests',
              text="For every accepted input the SPPF returned under ambiguity='forest' is walked by TreeForestTransformer (both modes), a counting ForestTransformer and a ForestVisitor; results are compared with the reference enumeration over the compiled rules (acyclic) or validated under a step budget with on_cycle observed (cyclic).",
              note='Trusts reference enumerator over Lark.rules (the forest names helper rules).', ref='4 C20'),
